@@ -141,12 +141,24 @@ fn main() {
             );
             ev.families.extend(rb);
             ev.families.extend(rh);
+            if !thorough && !report::stopped() {
+                // every seed board (all files, as written), shallow: the root, its successors and theirs are compared with
+                // their images but not expanded further - the boards with the longest action lists (70+ steps) are here
+                sym::STEP_LIMIT.store(2, std::sync::atomic::Ordering::Relaxed);
+                let fam = families::fs_variants(&verif_dir().join("seeds"), 1, 1);
+                if let Some(mut r) = run_one(&fam, false) {
+                    r.family = format!("{} — shallow: states after 0, 1 and 2 steps compared, not expanded further", r.family);
+                    ev.families.push(r);
+                }
+                sym::STEP_LIMIT.store(4, std::sync::atomic::Ordering::Relaxed);
+            }
             ev.nontrivial_rule = "states = distinct primary states, each compared with its 3 images (counter c11_state_pairs_compared); non-trivial = primary states where the repetition rules withhold something + capturing transitions".into();
             ev.nontrivial_keys = vec!["c11_states_with_withheld_action", "c11_capturing_transitions"];
         }
         "C15" => run_c15(thorough, &mut ev, t0),
         "C16" => {
             ev.families.push(e4::c16_values(id));
+            ev.families.push(e4::c16_aliases(id));
             ev.families.push(e4::c16_strings(id, if thorough { 5 } else { 4 }));
             ev.families.push(e4::c16_long_tails(id, if thorough { 300 } else { 130 }));
             ev.nontrivial_rule = "every string of the stated length over the stated alphabet is one case; non-trivial = strings accepted by some parser (counter e4_accepted) plus all value round trips".into();
